@@ -1,73 +1,21 @@
-"""Per-property checks.  Each `check_Cxx(o, tier)` fills the Outcome: proof obligations (audit),
-correspondence profiles, monitors.  See DESIGN.md section 6."""
+"""Registry of the per-property checks.  Every module vlib/p_*.py contributes
+   CHECKS   = {"Cxx": check_fn(o, tier)}      fills the Outcome: proof obligations (audit), correspondence, monitors
+   PROFILES = {"name": profile_fn(o)}         builds the named correspondence profile (used by --replay)
+See DESIGN.md section 6."""
+import importlib
 import json
 import os
+import pkgutil
 import traceback
 
 from . import core
-from .inpkg import Profile, check_profile
 
-T = lambda *p: os.path.join(core.HARNESS, *p)
-
-
-class Built:
-    """lazily built artefacts shared by the checks of one run"""
-    cache = {}
-
-    @classmethod
-    def test_binary(cls, o, pkg_dir, files, name, **kw):
-        key = ("t", name)
-        if key not in cls.cache:
-            b, out = core.go_test_build(pkg_dir, files, name, **kw)
-            cls.cache[key] = (b, out)
-        b, out = cls.cache[key]
-        if b is None:
-            o.violation("harness %s does not build against /repo: %s" % (name, out[-1500:]),
-                        {"kind": "build", "output": out[-4000:]}, no_input=True)
-        return b
-
-    @classmethod
-    def driver(cls, o, exe):
-        key = ("d", exe)
-        if key not in cls.cache:
-            cls.cache[key] = core.lake_build([exe])
-        ok, out = cls.cache[key]
-        if not ok:
-            o.violation("lean driver %s does not build: %s" % (exe, out[-1500:]), {"kind": "build", "output": out[-4000:]}, no_input=True)
-        return ok
-
-
-# ------------------------------------------------------------------ index (C18, C03)
-
-def index_profile(o):
-    b = Built.test_binary(o, "types", [T("inpkg", "types", "index_harness_test.go")], "types_index")
-    if b is None or not Built.driver(o, "indexdriver"):
-        return None
-    return Profile("index", lambda env: core.go_test_run(b, "^TestVerifIndex$", env), "indexdriver")
-
-
-C18_MONITORS = {"tag-unique", "tag-last", "subject-unique", "untagged-once", "get-digest-iff",
-                "rm-tag-keeps-digest", "rm-digest-all", "copy-independent", "copy-equal"}
-
-
-def check_C18(o, tier):
-    o.add_audit(core.audit("C18", tier == "thorough"))
-    prof = index_profile(o)
-    if prof is None:
-        return
-    o.cov["rule"] = ("index profile: random AddDesc/RmDesc/AddChildren/JSON round trip/GetDesc/GetByAnnotation/Copy sequences over 2-4 digests, "
-                     "1-3 tags, 1-2 subjects, plus the exhaustive tree of all sequences up to the stated depth over a 12- or 18-letter alphabet; "
-                     "every answer of the real types.Index is compared with the Lean model's; distinct_nontrivial counts distinct (request, answer) pairs")
-    n = 4000 if tier == "quick" else 150000
-    check_profile(o, prof, "gen", {"VERIF_SEED": o.seed, "VERIF_N": n}, "index-random", C18_MONITORS)
-    depth = 4 if tier == "quick" else 6
-    check_profile(o, prof, "tree", {"VERIF_DEPTH": depth}, "index-tree", C18_MONITORS)
-    check_profile(o, prof, "tree", {"VERIF_DEPTH": 3 if tier == "quick" else 5, "VERIF_ALPHABET": "wide"}, "index-tree-wide", C18_MONITORS)
-    o.cov["exhaustive"] = False
-    prof.cleanup()
-
-
-CHECKS = {"C18": check_C18}
+CHECKS, PROFILE_OF = {}, {}
+for _m in pkgutil.iter_modules([os.path.dirname(__file__)]):
+    if _m.name.startswith("p_"):
+        _mod = importlib.import_module("vlib." + _m.name)
+        CHECKS.update(getattr(_mod, "CHECKS", {}))
+        PROFILE_OF.update(getattr(_mod, "PROFILES", {}))
 
 
 def run(prop, tier, seed):
@@ -105,4 +53,3 @@ def replay(prop, path):
     return 1 if (mn or im != mo) else 0
 
 
-PROFILE_OF = {"index": index_profile}
